@@ -68,6 +68,25 @@ Theorem C16_drained_after_exit :
 Proof. exact drained_after_exit. Qed.
 Print Assumptions C16_drained_after_exit.
 
+(* The same on every result path, the timeout paths included: whatever tentative result
+   [detect_fd_leaks] is handed (none, pass, fail, exec-fail, timeout), once every holder has exited
+   its reads -- interleaved over both readers in any order -- reach EOF on a stream after |pipe| + 1
+   reads of it, and the stored bytes are everything written. In particular a test killed for a
+   timeout with a zero grace period ([child.wait()] awaited without reading) loses nothing of what
+   it had written before it died. *)
+Theorem C16_drained_on_every_result_path :
+  forall cap, 0 < cap -> forall (t : tentative) evs sched s,
+    let x := side_of s (srun cap evs sst0) in
+    sd_open x = false -> sd_stopped x = false -> r_done (sd_rd x) = false ->
+    Forall (fun n => 1 <= n) (polls_for s sched) ->
+    (length (sd_buf x) < length (polls_for s sched))%nat ->
+    let y := side_of s (srun cap (evs ++ leak_phase t sched) sst0) in
+    r_done (sd_rd y) = true /\
+    captured s (srun cap (evs ++ leak_phase t sched) sst0) = written s evs /\
+    sd_err y = sd_err x.
+Proof. exact drained_on_every_path. Qed.
+Print Assumptions C16_drained_on_every_result_path.
+
 (* Split mode: what happens to one stream does not depend on the other stream's events nor on
    the other events of the wait loops. *)
 Theorem C16_streams_independent :
@@ -239,3 +258,21 @@ Print Assumptions C16_stored_is_valid_xml.
 Example C16_F14_unfixed_witness :
   xml_text_ok (junit_impl_unfixed [120; 65535; 121]) = false /\ junit_impl [120; 65535; 121] = [120; 121].
 Proof. split; vm_compute; reflexivity. Qed.
+
+(* the timeout path with a zero grace period: the test is still writing when the timer fires; SIGKILL
+   ([EOther]), every holder dead ([EClose]), [child.wait()] awaited without reading ([EOther]), then
+   detect_fd_leaks with the tentative result Timeout: the three bytes left in the pipe are stored *)
+Example C16_timeout_path_example :
+  let pre := [EWrite SOut [1; 2]; EPoll SOut 4096; EWrite SErrS [7]; EWrite SOut [3; 4; 5];
+              EOther; EClose SOut; EClose SErrS; EOther] in
+  let sched := [(SErrS, 4096); (SOut, 2); (SOut, 4096); (SErrS, 4096); (SOut, 4096)] in
+  let x := srun 4 (pre ++ leak_phase TnTimeout sched) sst0 in
+  fds_done x = true /\ captured SOut x = [1; 2; 3; 4; 5] /\ captured SErrS x = [7] /\
+  written SOut pre = [1; 2; 3; 4; 5] /\
+  (* hypotheses of C16_drained_on_every_result_path for stdout *)
+  sd_open (st_out (srun 4 pre sst0)) = false /\ sd_buf (st_out (srun 4 pre sst0)) = [3; 4; 5] /\
+  polls_for SOut sched = [2; 4096; 4096] /\
+  (* what a drain that is skipped for timed-out units would store: a strict prefix *)
+  captured SOut (srun 4 (pre ++ leak_phase_skipping_timeout TnTimeout sched) sst0) = [1; 2] /\
+  leak_phase_skipping_timeout TnPass sched = leak_phase TnPass sched.
+Proof. vm_compute. repeat split; reflexivity. Qed.
